@@ -269,13 +269,14 @@ def check_guards(ctx, rule_g="R4-guard-is-divisor", rule_u="R5-unguarded-divisor
     for nm in dir_names(ctx.repo) + tested_names(ctx.repo):
         if nm not in names: names.append(nm)
     where = ctx.repo.where(GETATTR, ctx.repo.get(GETATTR))
-    seen = set(); ng = 0
+    seen = set(); ng = 0; cells_div = set()
     for iscsd in (True, False):
         for nm in names:
             try: T.cell(nm, iscsd)
             except Unknown: continue
             for ev in T.events.get((nm, iscsd), []):
                 if ev[0] != "divide": continue
+                cells_div.add(nm)
                 _, a, b, wherev, out, node = ev
                 # one quotient = one (site, divisor, guard): a shared helper's np.divide serves several cells
                 k_ = (id(node), repr(generic(b))[:300], repr(wherev)[:300])
@@ -317,7 +318,9 @@ def check_guards(ctx, rule_g="R4-guard-is-divisor", rule_u="R5-unguarded-divisor
                     ctx.violated(rule_g, c, "out= is not a zero array: guarded-away bins keep uninitialised or non-zero values", w2)
                 else:
                     ctx.holds(rule_g, c, f"guard tests exactly {sorted(need)}", w2)
-    ctx.need("guarded quotients in the attribute table", ng, 9)
+    # floor on the number of attributes whose value is a guarded quotient (helpers may share one np.divide site between several of them)
+    ctx.need("attributes computed as guarded quotients", len(cells_div), 9)
+    ctx.extra["guarded_quotient_sites"] = ng
     # rounding-robust roots: a square root of a difference that can cancel must be protected (abs / maximum / clip)
     seen = set(); nr = 0
     for iscsd in (True, False):
